@@ -101,7 +101,7 @@ CURATED3 = [
 ]
 
 
-def mach_units(func, tier, n2_params=None, n3=True, weight=4, pbits2=4, extra=None, nconcrete=2):
+def mach_units(func, tier, n2_params=None, n3=True, weight=4, pbits2=4, extra=None, nconcrete=2, shards3=True):
     extra = extra or {}
     units = []
     for mut in (0, 1, 2):
@@ -109,7 +109,7 @@ def mach_units(func, tier, n2_params=None, n3=True, weight=4, pbits2=4, extra=No
     if n3:
         for sc in CURATED3:
             units.append(U(MACH, func, weight=2, n=3, schema=sc, **extra))
-        if tier == "thorough":
+        if tier == "thorough" and shards3:
             for pv in range(0, 1024, 64):
                 units.append(U(MACH, func, weight=20, n=3, schema=-1, pbits=10, pval=pv, mut=0, **extra))
     return units
@@ -192,8 +192,15 @@ def c05(tier):
 
 
 def c07(tier):
-    units = mach_units("VerifC07Auto", tier, pbits2=5, weight=8)
-    return {"units": units, "bounds": MACH_BOUNDS, "outside": MACH_OUT + ["health-check mutations", "AnyEnter veto (pinned to no veto)"], "assumptions": MACH_ASSUME}
+    # no symbolic 3-state shards for C07: the justification oracle is not settled there (DESIGN.md A.2)
+    units = mach_units("VerifC07Auto", tier, pbits2=5, weight=8, shards3=False)
+    if tier == "thorough":
+        for mut in (0, 1, 2):
+            units += shards("VerifC07Auto", 5, weight=8, n=2, mut=mut, multi=1)
+    b = dict(MACH_BOUNDS, states="2 user states + Exception with every schema (all Require/Add/Remove/Auto bits symbolic; thorough also with Multi); 3 user states for 8 curated schemas")
+    return {"units": units, "bounds": b, "outside": MACH_OUT + ["health-check mutations", "AnyEnter veto (pinned to no veto)", "symbolic 3-state schemas: the "
+            "'rejected Auto state is justified' oracle is not settled there (an auto mutation is canceled as a whole by a state-state handler veto of another called "
+            "Auto state; whether that is justified 'by relations' depends on a reading of the property) - excluded rather than alarmed on"], "assumptions": MACH_ASSUME}
 
 
 def c14(tier):
